@@ -843,6 +843,10 @@ def _round2_variants(Variant, sub, multi, T, LA, E, F, G, H, J, R1T, R1L, R2T, R
     ]
 
 
+_POW_RD = ("    lams = np.array([lam1, lam2])\n    i = np.argsort(np.abs(lams))\n    lam_small, lam_big = lams[i]\n    arg = lam_small/lam_big\n"
+           "    return lam_big**(m-1)*(arg**m - 1)/(arg - 1)")
+
+
 def variants(repo):
     from optilint.selftest import Variant, sub, sub_in_func, alpha_rename, reformat
     from .C12_variants import (multi, REF_A_TM, REF_B_TM, REF_B_LA, REF_C_TM, REF_C_LA, REF_D_TM, REF_E_TM, REF_F_LA, REF_G_TM, REF_H_TM, REF_J_TM,
@@ -855,6 +859,21 @@ def variants(repo):
         Variant("C08-r6 + module level fallback without the derivative", T, multi(R2_C08R6_TM + [("    return np.where(x2 == x1, df(x1), relative_difference(x1, x2_safe))", "    return relative_difference(x1, x2_safe)")]),
                 "O3/T5-custom-jvp-wiring"),
         Variant("refactoring N (eigen solvers return a NamedTuple read by field name)", T, multi(REF_N_TM), None),
+        # ---- round 3: the relative difference handed to the helper must be the divided difference of the scalar function (exp-log normal form)
+        Variant("pow relative difference with hyperbolic sines (equivalent, stable form)", T, sub(_POW_RD, "    d = 0.5*np.log(lam1/lam2)\n    return (lam1*lam2)**((m-1)/2)*np.sinh(m*d)/np.sinh(d)"), None),
+        Variant("pow relative difference with hyperbolic sines, floor division in the exponent (C10-m5)", T,
+                sub(_POW_RD, "    d = 0.5*np.log(lam1/lam2)\n    return (lam1*lam2)**((m-1)//2)*np.sinh(m*d)/np.sinh(d)"), "O3/T5-custom-jvp-wiring"),
+        Variant("pow relative difference with hyperbolic sines, cosh in the denominator", T,
+                sub(_POW_RD, "    d = 0.5*np.log(lam1/lam2)\n    return (lam1*lam2)**((m-1)/2)*np.sinh(m*d)/np.cosh(d)"), "O3/T5-custom-jvp-wiring"),
+        Variant("pow relative difference with a rounded exponent of the prefactor", T, sub("    return lam_big**(m-1)*(arg**m - 1)/(arg - 1)", "    return lam_big**np.floor(m-1)*(arg**m - 1)/(arg - 1)"),
+                "O3/T5-custom-jvp-wiring"),
+        Variant("pow relative difference scaled by the small eigenvalue", T, sub("    return lam_big**(m-1)*(arg**m - 1)/(arg - 1)", "    return lam_small**(m-1)*(arg**m - 1)/(arg - 1)"),
+                "O3/T5-custom-jvp-wiring"),
+        Variant("exp relative difference about the midpoint (equivalent)", T, sub("    return np.exp(lam2)*np.expm1(arg)/arg", "    return np.exp(0.5*(lam1 + lam2))*np.sinh(0.5*arg)/(0.5*arg)"), None),
+        Variant("exp relative difference about the midpoint with cosh", T, sub("    return np.exp(lam2)*np.expm1(arg)/arg", "    return np.exp(0.5*(lam1 + lam2))*np.cosh(0.5*arg)/(0.5*arg)"),
+                "O3/T5-custom-jvp-wiring"),
+        Variant("log relative difference without sorting (equivalent)", T, sub("    return (np.log1p(arg)/arg)/lams[i[1]]", "    return (np.log(lam1) - np.log(lam2))/(lam1 - lam2)"), None),
+        Variant("log relative difference with log1p of the ratio", T, sub("    return (np.log1p(arg)/arg)/lams[i[1]]", "    return (np.log1p(arg + 1)/arg)/lams[i[1]]"), "O3/T5-custom-jvp-wiring"),
         Variant("N + unit wrapper fills the record the wrong way round", T, multi(REF_N_TM + [("    return EigenPairs(evals, evecs)", "    return EigenPairs(evecs, evals)")]), "O2/T9-eigen-roles"),
         Variant("N + record of the solver permutes rows", T, multi(REF_N_TM + [("    return EigenPairs(values=evals[idx], vectors=evecs[:,idx])", "    return EigenPairs(values=evals[idx], vectors=evecs[idx,:])")]),
                 "O2/T9-eigen-roles"),
